@@ -75,7 +75,12 @@ class ExprMixin:
         if isinstance(v, VList):
             return self.list_len(st, v) > 0
         if isinstance(v, VDict):
-            return self.dict_card(st, v) > 0
+            c = self.dict_card(st, v)
+            if not getattr(self, 'no_facts', 0):
+                # an empty dictionary (cardinality 0) has no keys
+                k = z3.Const(fresh_name('ek'), sort_of(v.k))
+                st.fact(z3.ForAll([k], z3.Implies(z3.Select(self.dict_dom(st, v), k), c > 0)))
+            return c > 0
         if isinstance(v, (VRef, VFunc)):
             return z3.BoolVal(True)
         if isinstance(v, VStr):
@@ -385,7 +390,7 @@ class ExprMixin:
         ty = self.hint_type(e)
         if ty is None:
             self.unsupported(e, 'dict literal without declared type (add `hints`)')
-        return [(st, self.new_dict(st, ty[1], ty[2]))]
+        return [(st, self.new_dict(st, ty[1], ty[2], ty[3] if len(ty) > 3 else None))]
 
     def e_JoinedStr(self, st, e):
         # f-strings: an opaque string (content irrelevant to every contract; A-STR)
@@ -877,8 +882,59 @@ class ExprMixin:
                     out.append((ok, self.dict_get(ok, base, idx)))
                 if ex is not None:
                     out.append((ex, None))
+            elif isinstance(base, VRef) and base.cls is not None and self.find_method(base.cls, '__getitem__') is not None:
+                out.extend(self.call_repo(s, self.find_method(base.cls, '__getitem__'), [base, idx], {}, node))
             else:
                 self.unsupported(node, 'subscript of %r' % (base,))
+        return out
+
+    def e_DictComp(self, st, e):
+        """{k: v for (k, v) in D.items() if COND}: the restriction of D to the keys satisfying COND
+        (COND must be side-effect free; evaluated as a formula over an arbitrary key)"""
+        if len(e.generators) != 1:
+            self.unsupported(e, 'dict comprehension form')
+        g = e.generators[0]
+        tgt = g.target
+        if not (isinstance(tgt, ast.Tuple) and len(tgt.elts) == 2 and all(isinstance(x, ast.Name) for x in tgt.elts)
+                and isinstance(e.key, ast.Name) and isinstance(e.value, ast.Name)
+                and e.key.id == tgt.elts[0].id and e.value.id == tgt.elts[1].id):
+            self.unsupported(e, 'dict comprehension other than a filtered copy')
+        out = []
+        for s, it in self.eval(st, g.iter):
+            if s.exc is not None:
+                out.append((s, None))
+                continue
+            if not (isinstance(it, VFunc) and it.kind == 'dictiter' and it.mode == 'items'):
+                self.unsupported(e, 'dict comprehension over %r' % (it,))
+            d = it.dict
+            ks = sort_of(d.k)
+            kv = z3.Const(fresh_name('ck'), ks)
+            key = from_term(d.k, kv)
+            val = from_term(d.v, z3.Select(self.dict_vals(s, d), kv))
+            fid = s.new_frame(s.cur, None)
+            save = s.cur
+            s.cur = fid
+            self.spec_mode += 1
+            self.no_facts = getattr(self, 'no_facts', 0) + 1
+            try:
+                s.frames[fid][tgt.elts[0].id] = key
+                s.frames[fid][tgt.elts[1].id] = val
+                conds = []
+                for c in g.ifs:
+                    (s2, cv), = self.eval(s, c)
+                    conds.append(self.truth(s, cv))
+            finally:
+                self.no_facts -= 1
+                self.spec_mode -= 1
+                s.cur = save
+                s.frames.pop(fid, None)
+            nd = self.new_dict(s, d.k, d.v, getattr(d, 'tag', None))
+            kd, dd = self._dd(s, nd)
+            kvk, dv = self._dv(s, nd)
+            newdom = z3.Lambda([kv], z3.And(z3.Select(self.dict_dom(s, d), kv), *conds))
+            self.heap_set(s, kd, z3.Store(dd, nd.t, newdom))
+            self.heap_set(s, kvk, z3.Store(dv, nd.t, self.dict_vals(s, d)))
+            out.append((s, nd))
         return out
 
     def _seq_arr(self, sq):
